@@ -309,7 +309,9 @@ class CallMixin:
         for lv in c.modifies:
             self.havoc_lvalue(lv, live, mod)
         res = None
-        if c.result is not None:
+        if c.returns is not None:
+            res = live[c.returns]
+        elif c.result is not None:
             res = self.sym_of_sort(c.result, 'r_' + c.name.split('.')[-1], fr0)
         fr1 = Frame(None, dict(entry), mod, None, c)
         fr1.extra = dict(fr0.extra)
@@ -457,9 +459,18 @@ class CallMixin:
         if init is None or not isinstance(init, types.FunctionType):
             raise Unsupported(f'construction of {cls.__name__}')
         fs = self.func_src(inspect.unwrap(init))
-        c = self.reg.lookup(fs.file, fs.qual)
+        cands = self.reg.candidates(fs.file, fs.qual)
+        c = None
+        try:
+            env0 = self.bind(fs.node.args, [None] + list(args), kwargs, init.__defaults__, None)
+        except PyRaise:
+            env0 = None
+        for cc in cands:
+            if env0 is not None and all(self.kind_matches(S, env0[k]) for k, S in cc.params.items() if k in env0 and k != 'self'):
+                c = cc
+                break
         if c is None:
-            raise Unsupported(f'constructor {fs.qual} has no contract')
+            raise Unsupported(f'constructor {fs.qual} has no contract accepting these arguments')
         if c.inline:
             obj = VStruct(None, cls, {})
         else:
@@ -519,6 +530,7 @@ class CallMixin:
                     params = [z3.Const(f'{spec.name}.{a.arg}', s) for a, s in zip(fn.args.args, sorts)]
                     env = {a.arg: self.wrap_sort(p, S) for a, p, S in zip(fn.args.args, params, spec.sorts)}
                     fr = Frame(None, env, spec._mod)
+                    fr.extra = self.contract_names_for(None, None)
                     self._pure += 1
                     try:
                         body = self.pure_block(fn.body, fr)
@@ -541,6 +553,7 @@ class CallMixin:
         if len(args) != len(fn.args.args):
             raise Unsupported(f'spec {spec.name}: arity')
         fr = Frame(None, env, spec._mod)
+        fr.extra = self.contract_names_for(None, None)
         self._pure += 1
         try:
             return self.pure_block(fn.body, fr)
@@ -612,6 +625,9 @@ class CallMixin:
                 return self.ite(c, a, b)
             if isinstance(s, ast.Assert):
                 continue
+            if isinstance(s, (ast.Import, ast.ImportFrom)):
+                self.exec(s, fr)
+                continue
             raise Unsupported(f'statement {type(s).__name__} in a spec function')
         return None
 
@@ -644,9 +660,24 @@ class CallMixin:
         names['unit'] = Builtin('unit', lambda a, k, n, f: (a[0],))
         names['EMPTY'] = ()
         names['old'] = Builtin('old', lambda a, k, n, f: a[0])
+        names['rev'] = Builtin('rev', self.b_rev)
+        for om, (argsorts, ret) in (getattr(c, 'opaque', None) or {}).items():
+            names['obj_' + om] = Builtin('obj_' + om, lambda a, k, n, f, om=om, argsorts=argsorts, ret=ret: self.opaque_fn(om, argsorts, ret, a))
         names['seq_eq_from'] = Builtin('seq_eq_from', self.b_seq_eq_from)
         names['ite'] = Builtin('ite', lambda a, k, n, f: self.ite(self.truth(a[0]), a[1], a[2]))
         return names
+
+    def opaque_fn(self, om, argsorts, ret, a):
+        zs = self.zs
+        f = self.ufun(f'obj_{om}', zs.zsort(api.Obj), *[zs.zsort(s_) for s_ in argsorts], zs.zsort(ret))
+        a2 = [zs.lift(self.unwrap_term(x), s_) for x, s_ in zip(a, [zs.zsort(api.Obj)] + [zs.zsort(s_) for s_ in argsorts])]
+        return f(*a2)
+
+    def b_rev(self, a, k, n, f):
+        x = self.seqterm(a[0])
+        if not z3.is_expr(x):
+            return tuple(reversed(tuple(x)))
+        return self.zs.seq_rev_fn(x.sort())(x, z3.Length(x))
 
     def b_seq_eq_from(self, a, k, n, f):
         x, y = self.seqterm(a[0]), self.seqterm(a[1])
